@@ -196,7 +196,7 @@ def judge(ctx, traces):
         wd = ctx.sub("judge%d" % p)
         fn = os.path.join(wd, "traces.json")
         with open(fn, "w") as f:
-            json.dump([{"steps": t["steps"]} for t in chunks[p]], f)
+            json.dump([{"steps": [{k: v for k, v in st.items() if k != "evfull"} for st in t["steps"]]} for t in chunks[p]], f)
         return tlc.run("Judge_Colang.tla", "SPECIFICATION Spec\nINVARIANT Verdict\n", wd, spec_dirs=[SPEC_DIR],
                        env={"TRACE_FILE": fn}, workers=1, timeout=3000)
 
@@ -215,3 +215,8 @@ def judge(ctx, traces):
 
 def events_of(trace):
     return [s["ev"] for s in trace["steps"]]
+
+
+def full_events_of(trace):
+    """the events with their arguments (action uids as recorded in that run), for the replay files"""
+    return [s.get("evfull", {"type": s["ev"]}) for s in trace["steps"]]
